@@ -27,11 +27,12 @@ class _Cexptrk_Potential_Function(object):
         if pn.lower() in ('true', 'false', 'null'):
           raise KeyError("'{}' is a literal of the expression language".format(pn.lower()))
         local_symbol_table.variables[pn] = 1.0
-      except KeyError as e:
+      except (KeyError, UnicodeEncodeError) as e:
         # Raised by the expression library for names it cannot use as variables: its built-in constants
-        # (pi, epsilon, inf), its functions and keywords (min, exp, if ...) and anything that isn't an identifier.
+        # (pi, epsilon, inf), its functions and keywords (min, exp, if ...), anything that isn't an identifier
+        # and names outside ASCII.
         msg = "In potential-form '{label}': '{name}' cannot be used as a parameter name: {reason}".format(
-          label = self._potential_form_tuple.signature.label, name = pn, reason = e.args[0] if e.args else str(e))
+          label = self._potential_form_tuple.signature.label, name = pn, reason = e.args[0] if (isinstance(e, KeyError) and e.args) else str(e))
         raise Potential_Form_Exception(msg)
     return local_symbol_table
 
@@ -44,6 +45,10 @@ class _Cexptrk_Potential_Function(object):
       # KeyError: the label is already in use as the name of one of this form's parameters
       msg = "Name clash for potential-form '{}': {}".format(label, str(e))
       raise Potential_Form_Exception(msg)
+    except UnicodeEncodeError:
+      # The expression library only holds ASCII names: no formula can call a form whose label lies outside
+      # ASCII (the call would not parse), so there is nothing to register.
+      pass
       
 
   def _parse_expression(self):
